@@ -16,7 +16,7 @@ QUERIES0 = [
     "available_jobs", "completed_operations", "uncompleted_operations",
     "ongoing_operations",
 ]
-QUERIES1 = ["earliest_start_time", "next_operation", "is_scheduled", "uns_observer"]
+QUERIES1 = ["earliest_start_time", "next_operation", "is_scheduled", "uns_observer", "min_start_time", "start_time"]
 INVALID_KINDS = [
     "ahead", "already_scheduled", "ineligible_machine", "machine_too_large",
     "machine_too_negative", "none_on_flexible",
@@ -328,6 +328,26 @@ class DWorld:
             self.lib_error(owner, "query_raised", f"{name}{args} raised {short_exc(e)}", query=name, exc=type(e).__name__)
             raise Foreign(owner, f"{name} raised (known)")
 
+    def arg_query(self, name, arg):
+        """Public queries that take arguments, on seeded arguments.  Returns
+        (got, expected-by-the-model) or None when not applicable."""
+        m = self.model
+        ready = m.ready()
+        if not ready:
+            return None
+        if name == "min_start_time":
+            # a seeded non-empty sub-list of the ready operations (bits of arg)
+            sub = [x for k, x in enumerate(ready) if (arg >> k) & 1] or [ready[arg % len(ready)]]
+            return self.call_query(name, [self.op_of(j, p) for j, p in sub]), m.min_start(sub), sub
+        j, p = ready[arg % len(ready)]
+        if name == "start_time":
+            ms = m.machines(j, p)
+            mm = ms[(arg // 7) % len(ms)]
+            return self.call_query(name, self.op_of(j, p), mm), m.start(j, p, mm), (j, p, mm)
+        if name == "earliest_start_time":
+            return self.call_query(name, self.op_of(j, p)), m.est1(j, p), (j, p)
+        return None
+
     def abstract_state(self):
         d = self.disp
         return (self.inst_hash, tuple(d.job_next_operation_index), tuple(d.machine_next_available_time), tuple(d.job_next_available_time))
@@ -542,6 +562,8 @@ class Hooks:
         """Default: call the query, ignore the answer."""
         if name in QUERIES0:
             w.call_query(name)
+        elif name in ("min_start_time", "start_time", "earliest_start_time"):
+            w.arg_query(name, arg)
 
     def on_invalid(self, w, kind, thunk, desc):
         """Default: perform it; it must raise, else the run leaves this
